@@ -1,26 +1,27 @@
 #!/bin/bash
+VROOT="$(cd "$(dirname "$0")/.." && pwd)"; REPO="${VERIF_REPO:-/repo}"; export VERIF_REPO="$REPO"
 # usage: tools/refactest.sh <name> [<srcdir>]   -- a behaviour-preserving refactoring (patch.diff in <srcdir>, default /tmp/refac/<name>)
 #   must NOT raise an alarm: applies the patch to /repo, runs the quick checks of the properties listed in pids.json, expects exit 0
 #   and no VIOLATION line (MODEL-DRIFT is allowed), restores /repo.  Results: /verif/seeded/refactors/<name>/
 name=$1; src=${2:-/tmp/refac/$name}
-out=/verif/seeded/refactors/$name
+out=$VROOT/seeded/refactors/$name
 mkdir -p $out
 cp $src/patch.diff $src/pids.json $out/ 2>/dev/null
 [ -f $src/meta.json ] && cp $src/meta.json $out/agent_meta.json
-git -C /repo status --short | grep -q . && { echo "/repo not clean"; exit 2; }
-git -C /repo apply $out/patch.diff || { echo "$name: patch does not apply"; exit 2; }
-( cd /repo && env -u SKEPTICOIN_VERIF timeout 900 /venv/bin/python -m pytest -q -p no:cacheprovider --timeout=900 > $out/tests.log 2>&1 ); tests=$?
+git -C $REPO status --short | grep -q . && { echo "$REPO not clean"; exit 2; }
+git -C $REPO apply $out/patch.diff || { echo "$name: patch does not apply"; exit 2; }
+( cd $REPO && env -u SKEPTICOIN_VERIF timeout 900 /venv/bin/python -m pytest -q -p no:cacheprovider --timeout=900 > $out/tests.log 2>&1 ); tests=$?
 res=""
 for pid in $(python3 -c "import json;print(' '.join(json.load(open('$out/pids.json'))['properties']))"); do
-  ( cd /verif && timeout 1500 bin/check $pid --tier quick > $out/check_$pid.log 2>&1 ); rc=$?
+  ( cd $VROOT && timeout 1500 bin/check $pid --tier quick > $out/check_$pid.log 2>&1 ); rc=$?
   v=$(grep -c "^VIOLATION" $out/check_$pid.log); d=$(grep -c "^MODEL-DRIFT" $out/check_$pid.log)
   res="$res $pid:rc=$rc,viol=$v,drift=$d"
 done
-git -C /repo checkout -- . ; git -C /repo clean -fdq skepticoin 2>/dev/null
-python3 - "$name" "$tests" "$res" <<'PY'
+git -C $REPO checkout -- . ; git -C $REPO clean -fdq skepticoin 2>/dev/null
+VROOT=$VROOT python3 - "$name" "$tests" "$res" <<'PY'
 import json,sys
 name,tests,res=sys.argv[1:]
-out='/verif/seeded/refactors/%s'%name
+out=os.environ.get('VROOT','/verif')+'/seeded/refactors/%s'%name
 am={}
 try: am=json.load(open(out+'/agent_meta.json'))
 except Exception: pass
